@@ -25,7 +25,7 @@ func runC12(c *Ctx) {
 
 	// ---- refill: no error reported while data was delivered
 	c.refillRules("DLV-DATAWITHERR", "")
-	refill := c.method("postscript", "scanner", "refill")
+	refill, _ := c.refillAnchor()
 
 	// ---- fixed-size reads use io.ReadFull
 	// (decided on one evaluated iteration of the decoder's main loop per state — rules_c14b.go — so
